@@ -38,6 +38,7 @@ type CQVar struct{ Name, Type string }
 type CQuant struct {
 	Forall bool
 	Vars   []CQVar
+	Cands  []CExpr // witness candidates for exists (hints)
 	Body   CExpr
 }
 type CCond struct{ C, A, B CExpr }
@@ -213,6 +214,16 @@ func (p *cparser) top() CExpr {
 				continue
 			}
 			break
+		}
+		if p.isOp("{") {
+			p.next()
+			for !p.isOp("}") {
+				q.Cands = append(q.Cands, p.top())
+				if p.isOp(",") {
+					p.next()
+				}
+			}
+			p.expect("}")
 		}
 		p.expect("::")
 		q.Body = p.top()
